@@ -174,7 +174,34 @@ def correspondence(payload):
                        "Definition run (c : list pred * val) : nat := opt_bool_code (tuple_of_call W0 (fst c) (snd c)).", chunk=1500)
     mism += [{"case": "is_tuple_of_p call semantics", "p": d4[i][0], "x": d4[i][1], "model": c, "impl": exp4[i]} for i, c in enumerate(codes) if c != exp4[i]]
     n3 += len(items)
-    return {"evaluations": n1 + n2 + n3, "distinct_nontrivial": len(set(d2)),
+    # (5) is_dict_of_p against Lemmas/DictOf.v (a list of (key predicate, value predicate) pairs; a dict = its items in insertion order)
+    dsrc = _ast.unparse(_ast.parse(open(os.path.join(vlib.REPO, "predicate/dict_of_predicate.py")).read()))
+    fpd = os.path.join(HERE, "fingerprints", "c09_dict_of.json")
+    if not os.path.exists(fpd) or json.load(open(fpd)).get("source") != dsrc:
+        mism.append({"case": "fingerprint", "file": "predicate/dict_of_predicate.py", "note": "Lemmas/DictOf.v was written against another text"})
+    kcomps = [(SP.eq_p(1), SP.eq_p(5)), (SP.ge_p(0), SP.ge_p(7)), (SP.is_int_p, SP.is_int_p), (SP.eq_p(2), SP.is_none_p), (SP.is_none_p, SP.lt_p(3)), (PP.always_false_p, SP.eq_p(1)),
+              (SETP.in_p(1, 2), SP.is_str_p), (SP.is_str_p, SP.ge_p(2))]
+    dvals5 = [{}, {1: 5}, {1: 5, 0: 7}, {0: 7, 1: 5}, {1: 3, 2: None}, {2: None}, {1: None}, {None: 1}, {None: None}, {1: True, 1.5: 2.5}, {4: 4, 1: 1, 3: 3, 2: 2}, {"a": 1}, {"a": 2, 1: "b"},
+              {2: "x", 1: "y"}, {0: 9, 3: 7, 1: 5}]
+    items, exp5, d5 = [], [], []
+    for k in (0, 1, 2, 3):
+        combos = list(itertools.product(kcomps, repeat=k))
+        if k == 3:
+            combos = rng.sample(combos, 40)
+        for kvs_ in combos:
+            dp = SP.is_dict_of_p(*kvs_)
+            for x in dvals5:
+                try:
+                    items.append("([" + "; ".join(f"({cx.pred(a)}, {cx.pred(b)})" for a, b in kvs_) + "], [" + "; ".join(f"({cx.val(a)}, {cx.val(b)})" for a, b in x.items()) + "])")
+                except enc.Unencodable:
+                    continue
+                exp5.append(code_of_call(dp, x))
+                d5.append(("is_dict_of_p(" + ", ".join(f"({a!r}, {b!r})" for a, b in kvs_) + ")", repr(x)))
+    codes = eval_codes("c08e", "From PP Require Import Lemmas.DictOf.\nOpen Scope Q_scope.\n", items,
+                       "Definition run (c : list kvpred * list item) : nat := opt_bool_code (dict_of_items W0 (fst c) (snd c)).", chunk=1500)
+    mism += [{"case": "is_dict_of_p call semantics", "p": d5[i][0], "x": d5[i][1], "model": c, "impl": exp5[i]} for i, c in enumerate(codes) if c != exp5[i]]
+    n3 += len(items)
+    return {"evaluations": n1 + n2 + n3, "distinct_nontrivial": len(set(d2)), "dict_of_calls_compared": len(items),
             "rule": "every exported constant/factory vs Lemmas/Std.v; p(x) vs the model's ev for ~330 atoms (every class, constants {0,1,2,3,5,2.5,True}, "
                     "all bound orders, empty/singleton/overlapping sets, type tests, quantified and 'of' forms) x a 44-value cross-type domain, plus "
                     "str/datetime/UUID constant sorts; outcome codes 0/1/2 = False/True/raises",
@@ -254,6 +281,22 @@ def ref(p, x):
         return p.key in x.keys()
     if T == "RegexPredicate":
         return re.match(p.pattern, x, p.flags) is not None
+    if T == "DictOfPredicate":
+        # "tests if the value is of type dict and the key and values match the predicates" + the two comments of the class:
+        # every item is accepted by some (key, value) pair; no pair whose key predicate accepts an item's key is contradicted by its value;
+        # an empty dict only for an empty list of pairs
+        if not isinstance(x, dict):
+            return False
+        kvs = list(p.key_value_predicates)
+        if not x and kvs:
+            return False
+        for k_, v_ in x.items():
+            if not any(ref(kp, k_) and ref(vp, v_) for kp, vp in kvs):
+                return False
+        for kp, vp in kvs:
+            if any(ref(kp, k_) and not ref(vp, v_) for k_, v_ in x.items()):
+                return False
+        return True
     if T == "TupleOfPredicate":
         xs = list(x)
         return len(xs) == len(p.predicates) and all(ref(q, v) for q, v in zip(p.predicates, xs))
@@ -267,6 +310,9 @@ def ref_call(p, x):
         return None
     except Exception as e:  # noqa: BLE001
         return ("raise", type(e).__name__)
+
+
+from optcommon import skey as _skey  # noqa: E402
 
 
 def search(payload):
@@ -285,6 +331,14 @@ def search(payload):
                 got = (got[0], bool(got[1])) if got[0] == "ok" else ("raise", got[1])
                 if got[0] != ps_x[0] or (got[0] == "ok" and got[1] != ps_x[1]):
                     fails.append({"p": repr(p), "x": repr(x), "implementation": repr(got), "reference": repr(ps_x)})
+    # is_dict_of_p (an exported 'of' form with several (key, value) pairs): literal, overlapping and predicate-valued keys
+    dps = [SP.is_dict_of_p(("name", SP.is_str_p), ("age", SP.is_int_p)), SP.is_dict_of_p((SP.is_str_p, SP.is_int_p), ("age", SP.ge_p(0))),
+           SP.is_dict_of_p(("age", SP.ge_p(0)), (SP.is_str_p, SP.is_int_p)), SP.is_dict_of_p((SP.eq_p(1), SP.eq_p(5)), (SP.ge_p(0), SP.ge_p(7))), SP.is_dict_of_p(),
+           SP.is_dict_of_p((SP.is_int_p, SP.is_int_p)), SP.is_dict_of_p(("a", SP.is_int_p), ("a", SP.is_str_p)), SP.is_dict_of_p((SP.is_none_p, SP.is_none_p), ("k", SP.is_truthy_p))]
+    dvals = [{}, {"name": "n", "age": 3}, {"age": 3, "name": "n"}, {"name": "n"}, {"age": -1, "n": 2}, {"age": 3, "n": 2}, {"age": 2.5}, {"age": 3, "n": "x"}, {1: 5}, {1: 5, 0: 7},
+             {1: 5, 3: 9}, {0: 7}, {1: 4}, {"a": 1}, {"a": "s"}, {"a": None}, {None: None}, {None: None, "k": 1}, {"k": 0}, {2: 2, 3: 4}, {2: "x"}, [("a", 1)], "name", None, 3, {"x": {}}]
+    ps = ps + dps
+    vals = vals + dvals
     for p in ps:
         for x in vals:
             r = ref_call(p, x)
@@ -294,7 +348,7 @@ def search(payload):
             got = call(p, x)
             got = (got[0], bool(got[1])) if got[0] == "ok" else ("raise", got[1])
             if got[0] != r[0] or (got[0] == "ok" and got[1] != r[1]):
-                fails.append({"p": repr(p), "x": repr(x), "implementation": repr(got), "reference": repr(r)})
+                fails.append({"p": repr(p), "p_structure": str(_skey(p)), "x": repr(x), "implementation": repr(got), "reference": repr(r)})
                 break
         if len(fails) >= 5:
             break
